@@ -141,6 +141,7 @@ var confirmedFuncs = map[string]map[string]bool{
 	// support/timepb is not normalised: its rules interpret calls of package functions themselves
 	"rapidproto":               set("GeneratorOptions.WithAnyTypes", "GeneratorOptions.WithDisallowNil", "GeneratorOptions.WithInterfaceHint", "GeneratorOptions.genAny", "GeneratorOptions.genDuration", "GeneratorOptions.genFieldMask", "GeneratorOptions.genScalarFieldValue", "GeneratorOptions.genTimestamp", "GeneratorOptions.setFieldValue", "GeneratorOptions.setFields", "MessageGenerator", "setSecondsNanosFields"),
 	"cmd/protoc-gen-go-pulsar": set("ObjectSet.Set", "ObjectSet.String", "generateAllFiles", "main", "rewriteMessageField"),
+	"generator":                set("GeneratedFile.FieldGoType", "GeneratedFile.Ident", "GeneratedFile.IsLocalMessage", "Generator.GenerateFile", "KeySize", "NewGenerator", "ProtoWireType", "RegisterFeature", "findFeatures"),
 }
 
 func set(names ...string) map[string]bool {
